@@ -59,6 +59,7 @@ type interpreter struct {
 	jsonStreams        map[*value]*jsonStream
 	jsonCodecs         map[*value]*jsonCodec
 	pendingTimers      []*channel
+	pendingTickers     []*channel
 	protoMsgs          map[string]iface
 	nowHook            *value // harness clock cell (unix nanos), if the harness installed one
 	lastNow            value
